@@ -90,7 +90,8 @@ RECURSIVE Loose(_, _)
 Loose(toks, i) ==
   IF i > Len(toks) THEN <<>>
   ELSE IF toks[i].t = "sep" /\ i > 1 /\ toks[i - 1].t = "num" /\ ("plus" \notin DOMAIN toks[i] \/ ~toks[i].plus)
-          /\ (i = 2 \/ toks[i - 2].t \in {"sep", "lp"}) /\ Tok(toks, i + 1).t = "sym"
+          \* (a number after a number is a leading count too: the separator between two groups may be empty)
+          /\ (i = 2 \/ toks[i - 2].t \in {"sep", "lp", "num"}) /\ Tok(toks, i + 1).t = "sym"
        THEN Loose(toks, i + 1)
        ELSE <<toks[i]>> \o Loose(toks, i + 1)
 \* denotation of a structure: sequence of [z, a, q, c] with repeated atoms added and group counts multiplied in
